@@ -124,7 +124,7 @@ func runC13(ctx *Ctx, idx int) Result {
 		Sample: map[string]interface{}{"index": idx, "n": n, "insertion_order": order, "priority_ranking": rank}}
 }
 
-var mixC13 = Mix{Set: 40, Delete: 14, GetItem: 2, Visit: 2, Totals: 2, Flush: 5, Evict: 5, Reopen: 3, FaultyFlush: 1}
+var mixC13 = Mix{Set: 40, Delete: 14, GetItem: 2, Visit: 2, Totals: 2, Flush: 5, Evict: 5, Reopen: 3, FaultyFlush: 1, FaultyMut: 1}
 
 func runC13Random(ctx *Ctx, idx int) Result {
 	seed := CaseSeed(ctx.Seed, "C13", idx)
